@@ -32,3 +32,43 @@ Theorem C03_pattern_grammar_is_ambiguous_in_alternation :
   derives_tree regex_g tree_left [1; 5; 1; 5; 1] /\ derives_tree regex_g tree_right [1; 5; 1; 5; 1] /\ tree_left <> tree_right.
 Proof. exact pattern_grammar_ambiguous. Qed.
 Print Assumptions C03_pattern_grammar_is_ambiguous_in_alternation.
+
+(* ---- namespace stdex / utils below the model (appended by tools/append_props.py) *)
+Require Import Ctpg.Base.Prelude.
+Require Import Ctpg.Model.Grammar.
+Require Import Ctpg.Model.Containers.
+Require Import Ctpg.Model.Utils.
+Require Import Ctpg.Proofs.ContainersBits.
+Require Import Ctpg.Proofs.ContainersVec.
+Require Import Ctpg.Proofs.ContainersSort.
+Require Import Ctpg.Proofs.UtilsCorrect.
+
+(* char_subset is a cbitset<256>: for EVERY sequence of operations (set, ranges as repeated set, whole-set flip for '.' and inverted sets) test(j) is membership in the described set of bytes *)
+Theorem C03_character_sets_are_sets_of_bytes :
+  forall (n : N) (ops : list cb_op) (j : N), (j < n)%N -> cb_mem (cb_run n ops) j = fold_left (sb_step n) ops (fun _ : N => false) j.
+Proof. exact @cb_run_refines. Qed.
+Print Assumptions C03_character_sets_are_sets_of_bytes.
+
+(* 256 is a multiple of 64: no padding bits exist, flip() and set() are exact *)
+Theorem C03_whole_set_flip_is_exact_for_256_bits :
+  forall (n : N) (ops : list cb_op), (n mod 64)%N = 0%N -> cb_clean (cb_run n ops).
+Proof. exact @cb_run_clean_multiple_of_64. Qed.
+Print Assumptions C03_whole_set_flip_is_exact_for_256_bits.
+
+(* regex::hex_digits_to_char on two hex digits is 16 * v1 + v2 (as a byte, also for values >= 0x80 where char is negative) *)
+Theorem C03_hex_escapes_decode_to_their_value :
+  forall d1 d2 v1 v2 : nat, hex_value d1 = Some v1 -> hex_value d2 = Some v2 -> hex_digits_to_char d1 d2 = 16 * v1 + v2.
+Proof. exact @hex_digits_to_char_spec. Qed.
+Print Assumptions C03_hex_escapes_decode_to_their_value.
+
+(* utils::is_hex_digit on signed chars = the three ASCII ranges *)
+Theorem C03_hex_digit_class :
+  forall b : nat, b < 256 -> is_hex_digit b = (48 <=? b) && (b <=? 57) || (97 <=? b) && (b <=? 102) || (65 <=? b) && (b <=? 70).
+Proof. exact @is_hex_digit_spec. Qed.
+Print Assumptions C03_hex_digit_class.
+
+(* utils::is_dec_digit = '0'..'9' *)
+Theorem C03_dec_digit_class :
+  forall b : nat, b < 256 -> is_dec_digit b = (48 <=? b) && (b <=? 57).
+Proof. exact @is_dec_digit_spec. Qed.
+Print Assumptions C03_dec_digit_class.
